@@ -7,20 +7,21 @@
 (* and exactly the reference output (and tags) once settled (C08, C12).     *)
 (* Every work() call must satisfy the contract predicates (C09), and, for   *)
 (* scenarios marked sync, the derive-macro step law (C19).                  *)
-EXTENDS BlockContractDefs, SequencesExt, Json, IOUtils, TLCExt
+EXTENDS BlockContractDefs, BlockFns, SequencesExt, Json, IOUtils, TLCExt
 
 VARIABLES l,
           hdr,                  \* current scenario header
           out, otags,           \* per output: samples / tags produced so far
+          outn,                 \* per output: numeric values produced so far
           refOut, refTags, haveRef,
           fed, closedIn, spin, envSince, lastW, probe, cprobe
 Rec == ndJsonDeserialize(IOEnv.TRACE)
-tvars == <<l, hdr, out, otags, refOut, refTags, haveRef, fed, closedIn, spin, envSince, lastW, probe, cprobe>>
+tvars == <<l, hdr, out, otags, outn, refOut, refTags, haveRef, fed, closedIn, spin, envSince, lastW, probe, cprobe>>
 
 NoW == [none |-> TRUE]
 TraceInit ==
   /\ l = 1 /\ hdr = [mode |-> "none", nin |-> 0, nout |-> 0]
-  /\ out = <<>> /\ otags = <<>> /\ refOut = <<>> /\ refTags = <<>> /\ haveRef = FALSE
+  /\ out = <<>> /\ otags = <<>> /\ outn = <<>> /\ refOut = <<>> /\ refTags = <<>> /\ haveRef = FALSE
   /\ fed = <<>> /\ closedIn = <<>> /\ spin = 0 /\ envSince = TRUE /\ lastW = NoW /\ probe = FALSE
   /\ cprobe = FALSE
 
@@ -36,6 +37,7 @@ Scenario(e) ==
   /\ Chk(~Has(e, "error"), "constructor")
   /\ hdr' = IF Has(e, "error") THEN [mode |-> "none", nin |-> 0, nout |-> 0] ELSE e
   /\ out' = [j \in 1 .. hdr'.nout |-> <<>>] /\ otags' = [j \in 1 .. hdr'.nout |-> <<>>]
+  /\ outn' = [j \in 1 .. hdr'.nout |-> <<>>]
   /\ fed' = [i \in 1 .. hdr'.nin |-> 0] /\ closedIn' = [i \in 1 .. hdr'.nin |-> FALSE]
   /\ spin' = 0 /\ envSince' = TRUE /\ lastW' = NoW /\ probe' = FALSE /\ cprobe' = FALSE
   /\ IF hdr'.mode = "ref" \/ hdr'.mode = "none"
@@ -50,11 +52,11 @@ Env(e) ==
      \/ /\ e.ev = "close" /\ closedIn' = [closedIn EXCEPT ![e.i] = TRUE]
         /\ envSince' = TRUE /\ UNCHANGED fed
      \/ /\ e.ev = "dropout" /\ envSince' = TRUE /\ UNCHANGED <<fed, closedIn>>
-  /\ UNCHANGED <<hdr, out, otags, refOut, refTags, haveRef, spin, lastW, probe, cprobe>>
+  /\ UNCHANGED <<hdr, out, otags, outn, refOut, refTags, haveRef, spin, lastW, probe, cprobe>>
 
 Probe(e) ==
   /\ e.ev = "probe" /\ probe' = e.provided /\ cprobe' = e.counter
-  /\ UNCHANGED <<hdr, out, otags, refOut, refTags, haveRef, fed, closedIn, spin, envSince, lastW>>
+  /\ UNCHANGED <<hdr, out, otags, outn, refOut, refTags, haveRef, fed, closedIn, spin, envSince, lastW>>
 
 (* C19: step law of derive(sync) blocks.                                    *)
 MinSeq(s) == IF Len(s) = 0 THEN 0 ELSE CHOOSE m \in {s[i] : i \in 1 .. Len(s)} : \A i \in 1 .. Len(s) : m <= s[i]
@@ -82,6 +84,7 @@ TWork(w) ==
   /\ Chk(w.verdict.kind = "wait" => w.verdict.side \in {"in", "out"}, "verdict_side")
   /\ out' = [j \in 1 .. hdr.nout |-> out[j] \o w.out[j]]
   /\ otags' = [j \in 1 .. hdr.nout |-> otags[j] \o w.tags[j]]
+  /\ outn' = [j \in 1 .. hdr.nout |-> outn[j] \o w.outn[j]]
   /\ Chk((hdr.mode # "ref" /\ haveRef) =>
             \A j \in 1 .. hdr.nout : IsPrefix(out'[j], refOut[j]), "prefix")
   /\ spin' = IF w.verdict.kind = "again" /\ ~Moved(w) /\ ~envSince THEN spin + 1 ELSE 0
@@ -91,6 +94,9 @@ TWork(w) ==
   \* now means the block had named the wrong stream.
   /\ Chk((cprobe /\ lastW # NoW) => ~Moved(w), "misdirected")
   /\ Chk(Flag(hdr, "sync") => SyncLaw(w), "synclaw")
+  \* C19: generated eof() <=> every input has ended and is drained
+  /\ Chk((Flag(hdr, "sync") /\ hdr.nin > 0) =>
+            (w.eof = \A i \in 1 .. hdr.nin : closedIn[i] /\ w.avail[i] - w.consumed[i] = 0), "eof")
   /\ lastW' = w /\ envSince' = FALSE /\ probe' = FALSE /\ cprobe' = FALSE
   /\ UNCHANGED <<hdr, refOut, refTags, haveRef, fed, closedIn>>
 
@@ -110,7 +116,7 @@ TagMapOk ==
   IF ~Has(hdr, "tagmap") THEN TRUE
   ELSE IF hdr.tagmap.kind = "none" THEN TRUE
   ELSE LET tm == hdr.tagmap
-           src == hdr.intags[1]
+           src == hdr.intags[IF Has(tm, "src") THEN tm.src ELSE 1]
        IN \A j \in 1 .. hdr.nout :
             LET n == Len(out[j])
                 want == SelectSeq([i \in 1 .. Len(src) |-> <<MapIdx(tm, src[i][1]), src[i][2], src[i][3]>>],
@@ -118,10 +124,67 @@ TagMapOk ==
                 got == SelectSeq(otags[j], LAMBDA t : t[2] \in PKeys)
             IN SameBag(want, got)
 
+(* --- C10: independent functional oracle (BlockFns) *)
+TagPairs(j, key) == {<<otags[j][i][1], otags[j][i][3]>> : i \in {x \in 1 .. Len(otags[j]) : otags[j][x][2] = key}}
+Flatten(pkts) == Concat([i \in 1 .. Len(pkts) |-> <<-1>> \o pkts[i]])
+InTagSet == IF hdr.nin = 0 THEN {}
+            ELSE {<<hdr.intags[1][i][1], hdr.intags[1][i][3]>> : i \in 1 .. Len(hdr.intags[1])}
+Expected ==
+  LET f == hdr.fn p == hdr.fn.p ins == hdr.inputs IN
+  CASE f.kind = "lin" -> Lin(p, ins)
+    [] f.kind = "xor" -> XorFn(p, ins)
+    [] f.kind = "slicer" -> Slicer(p, ins)
+    [] f.kind = "mag2" -> Mag2(p, ins)
+    [] f.kind = "f2c" -> F2C(p, ins)
+    [] f.kind = "nrzi" -> Nrzi(p, ins)
+    [] f.kind = "descramble" -> Descramble(p, ins)
+    [] f.kind = "corr" -> Corr(p, ins)
+    [] f.kind = "corrtag" -> CorrTagOut(p, ins)
+    [] f.kind = "delay" -> DelayFn(p, ins)
+    [] f.kind = "skip" -> SkipFn(p, ins)
+    [] f.kind = "tee" -> TeeFn(p, ins)
+    [] f.kind = "resample" -> Resample(p, ins)
+    [] f.kind = "rtlsdr" -> RtlSdr(p, ins)
+    [] f.kind = "vecsource" -> VecSource([data |-> hdr.srcdata, repeat |-> p.repeat], ins)
+    [] f.kind = "v2s" -> V2S(p, ins)
+    [] f.kind = "burst" -> BurstOut(p, ins)
+    [] f.kind = "totext" -> ToTextFn(p, ins)
+    [] f.kind = "fftframes" -> FftFrames(p, ins)
+    [] f.kind = "s2pdu" -> << Flatten(StreamToPduFn(p, ins, InTagSet)) >>
+    [] f.kind = "p12" -> << Flatten([k \in 1 .. (Len(ins[1]) \div 2) |-> <<ins[1][2 * k - 1], ins[1][2 * k]>>]), ins[1] >>
+    [] OTHER -> <<>>
+ExpectedTags ==
+  LET f == hdr.fn p == hdr.fn.p ins == hdr.inputs IN
+  CASE f.kind = "corrtag" -> [key |-> "sync", set |-> {<<t[1], "U:" \o ToString(t[2])>> : t \in CorrTags(p, ins)}]
+    [] f.kind = "burst" -> [key |-> "burst", set |-> BurstTags(p, ins)]
+    [] OTHER -> [key |-> "", set |-> {}]
+ExpectedTriples ==
+  LET f == hdr.fn p == hdr.fn.p ins == hdr.inputs IN
+  CASE f.kind = "vecsource" -> VecSourceTags([data |-> hdr.srcdata, repeat |-> p.repeat])
+    [] f.kind = "v2s" -> V2STags(p, ins)
+    [] OTHER -> {}
+FnOutOk ==
+  IF hdr.fn.kind = "none" THEN TRUE
+  ELSE LET ex == Expected IN
+       /\ Len(ex) = hdr.nout
+       /\ \A j \in 1 .. hdr.nout :
+            /\ Len(outn[j]) = Len(ex[j])
+            /\ \A k \in 1 .. Len(ex[j]) : ex[j][k] = NoNum \/ outn[j][k] = ex[j][k]
+FnTagsOk ==
+  IF hdr.fn.kind \in {"corrtag", "burst"}
+  THEN TagPairs(1, ExpectedTags.key) = ExpectedTags.set
+       /\ Cardinality(ExpectedTags.set) = Cardinality({i \in 1 .. Len(otags[1]) : otags[1][i][2] = ExpectedTags.key})
+  ELSE IF hdr.fn.kind \in {"vecsource", "v2s"}
+  THEN {<<otags[1][i][1], otags[1][i][2], otags[1][i][3]>> : i \in 1 .. Len(otags[1])} = ExpectedTriples
+       /\ Len(otags[1]) = Cardinality(ExpectedTriples)
+  ELSE TRUE
+
 Final(e) ==
   /\ e.ev = "final"
   /\ Chk(e.settled = TRUE, "unsettled")
   /\ Chk(TagMapOk, "tagmap")
+  /\ Chk(FnOutOk, "fn_out")
+  /\ Chk(FnTagsOk, "fn_tags")
   /\ Chk(Flag(hdr, "close") =>
             /\ lastW # NoW
             /\ \/ lastW.verdict.kind = "eof"
@@ -132,7 +195,7 @@ Final(e) ==
      ELSE /\ Chk(haveRef => out = refOut, "final_out")
           /\ Chk(haveRef => \A j \in 1 .. hdr.nout : SameBag(otags[j], refTags[j]), "tags_ref")
           /\ UNCHANGED <<refOut, refTags, haveRef>>
-  /\ UNCHANGED <<hdr, out, otags, fed, closedIn, spin, envSince, lastW, probe, cprobe>>
+  /\ UNCHANGED <<hdr, out, otags, outn, fed, closedIn, spin, envSince, lastW, probe, cprobe>>
 
 TraceNext ==
   /\ l <= Len(Rec)
